@@ -593,6 +593,15 @@ def rust_local_field_assigns(f):
         name = f.local_name(lhs["l"])
         if not name:
             continue
+        # only re-loads count: the local already holds a value here (another definition dominates this one).  The initialiser of
+        # `let mut copy = state.length;` followed by clamps is routinely folded into one expression and is not pinned.
+        reload = False
+        for bi2, si2, rv2 in f.defs.get(lhs["l"], []):
+            if bi2 in f.live and ((bi2 == bi and isinstance(si2, int) and si2 < si) or (bi2 != bi and f.dominates(bi2, bi))):
+                reload = True
+                break
+        if not reload:
+            continue
         e = mir.strip_casts(f.rvalue_expr(rv))
         while e and e[0] in ("*", "&"):
             e = mir.strip_casts(e[1])
